@@ -23,3 +23,11 @@ for ID in "$@"; do
     *) echo "$NAME $ID: trouble (exit $rc) $(grep -m1 'trouble' "$OUT/$ID.log")";;
   esac
 done
+# replay exactness: every reported replay file must reproduce on the same (patched) tree
+if [ "${REPLAY:-1}" = "1" ]; then
+  for f in "$OUT"/replays/*.json; do
+    [ -f "$f" ] || continue
+    VERIF_REPO="$COPY" VERIF_SKIP_GATE=1 /verif/check replay "$f" > "$OUT/replay.log" 2>&1; rc=$?
+    if [ $rc -eq 1 ]; then echo "$NAME replay $(basename $f): reproduces"; else echo "$NAME replay $(basename $f): DOES NOT REPRODUCE (exit $rc)"; fi
+  done
+fi
